@@ -263,7 +263,7 @@ func (a *ArchiveInfo) intervalForWrite(t Timestamp) Timestamp {
 }
 
 func (a *ArchiveInfo) filterPoints(points []Point, now Timestamp) []Point {
-	oldest := a.intervalForWrite(now.Add(-a.MaxRetention()))
+	oldest := a.intervalForWrite(oldestTime(now, a.MaxRetention()))
 	filteredPoints := make([]Point, 0, len(points))
 	for _, p := range points {
 		if p.Time >= oldest && p.Time <= now {
